@@ -17,11 +17,13 @@ func C19(r *core.Report) {
 	r.Explanation = "Decides structural necessary conditions of C19 in the gRPC streaming code: R1 polarity - every return of the transaction filter predicate is a boolean constant, the constant returned for 'no filter' (accept) equals the fall-through return and every early exit returns its negation, and each send site is guarded so that it is reached exactly when the predicate accepts; " +
 		"R2 in every per-slot loop the NotFound branch of the block lookup continues with the next slot (a skipped slot does not end the stream); R3 every field of StreamTransactionsFilter and StreamBlocksFilter is read by the server; " +
 		"R4 the ordered flush walks slots upward and sorts positions with a strict ascending comparator before sending; R5 the address-index path must not cap the per-account result with a constant limit that the scan path does not have (index/scan parity). " +
+		"R6 what the per-account workers of the address-index path collect into keeps each response under a key built from (slot, position) - a keyed map store, never an append or a direct send - so a transaction found by several workers is streamed once. " +
 		"Not decided: equality of the streamed set with the archive for concrete epochs, the account matching itself (HasAccount, loaded addresses)."
 	f := r.Anchor("C19.R1", "main.(*MultiEpoch).processSlotTransactions")
 	if f != nil {
 		c19Polarity(r, f)
 		c19Parity(r, f)
+		c19WorkersCollapseDuplicates(r, f)
 	}
 	c19NotFoundContinues(r)
 	c19FieldCoverage(r)
@@ -30,6 +32,7 @@ func C19(r *core.Report) {
 	r.Floor("C19.R2", 2)
 	r.Floor("C19.R3", 6)
 	r.Floor("C19.R4", 2)
+	r.Floor("C19.R6", 1)
 }
 
 func boolConst(info *types.Info, e ast.Expr) (val bool, ok bool) {
@@ -420,4 +423,156 @@ func c19Parity(r *core.Report, f *core.Func) {
 	if n == 0 {
 		r.Undecided(rule, f.Key+"#GetBeforeUntilSlot", posP(r, f.Pos()), "call to GetBeforeUntilSlot not found")
 	}
+}
+
+// c19WorkersCollapseDuplicates (C19.R6): the address-index path starts one worker per requested account; a transaction
+// that mentions several of the accounts is found by several workers. What the workers collect into must therefore be
+// keyed by the transaction's identity (slot, position) - a keyed map store - and never be an append or a direct send.
+func c19WorkersCollapseDuplicates(r *core.Report, f *core.Func) {
+	const rule = "C19.R6"
+	p := r.Prog
+	info := f.Pkg.TypesInfo
+	isResp := func(t types.Type) bool {
+		return t != nil && strings.HasSuffix(t.String(), "old-faithful-grpc.TransactionResponse")
+	}
+	n := 0
+	ast.Inspect(f.Body, func(m ast.Node) bool {
+		rs, ok := m.(*ast.RangeStmt)
+		if !ok {
+			return true
+		}
+		// worker literals launched by a go statement directly in this loop body
+		ast.Inspect(rs.Body, func(x ast.Node) bool {
+			gs, ok := x.(*ast.GoStmt)
+			if !ok {
+				return true
+			}
+			lit, ok := core.Unparen(gs.Call.Fun).(*ast.FuncLit)
+			if !ok {
+				return true
+			}
+			ast.Inspect(lit.Body, func(y ast.Node) bool {
+				c, ok := y.(*ast.CallExpr)
+				if !ok {
+					return true
+				}
+				respArg := -1
+				for i, a := range c.Args {
+					if isResp(info.TypeOf(a)) {
+						respArg = i
+					}
+				}
+				if respArg < 0 {
+					return true
+				}
+				sel, ok := core.Unparen(c.Fun).(*ast.SelectorExpr)
+				if !ok {
+					return true
+				}
+				n++
+				k := fmt.Sprintf("%s#worker-sink@%d", f.Key, n)
+				if sel.Sel.Name == "Send" {
+					r.Violation(rule, k, pos(r, c), "a per-account worker sends responses directly: a transaction mentioning two requested accounts is streamed twice and out of order")
+					return true
+				}
+				fn := core.Callee(info, c)
+				var callee *core.Func
+				if fn != nil {
+					callee = p.ByObj[fn.Origin()]
+				}
+				if callee == nil || callee.Decl == nil {
+					// helpers that only read the response (filters, loggers) have no repo body to check or take it by value
+					if fn != nil && fn.Pkg() != nil && !strings.Contains(fn.Pkg().Path(), "yellowstone-faithful") {
+						n--
+						return true
+					}
+					r.Undecided(rule, k, pos(r, c), "callee receiving the response in a per-account worker not resolved")
+					return true
+				}
+				stores, why := keyedStoreOnly(callee, respArg)
+				if stores == 0 && why == "" {
+					n-- // reads the response only
+					return true
+				}
+				r.Check(why == "", rule, k, pos(r, c), fmt.Sprintf("%s keeps the responses of the per-account workers under a key built from its parameters (%d keyed store)", callee.Key, stores),
+					"responses collected by the per-account workers are not collapsed by identity: "+why+"; a transaction mentioning two requested accounts is streamed once per account")
+				return true
+			})
+			return false
+		})
+		return true
+	})
+	if n == 0 {
+		r.Undecided(rule, f.Key+"#workers", posP(r, f.Pos()), "no per-account worker collecting responses found (the address-index path changed shape)")
+	}
+}
+
+// keyedStoreOnly inspects how the function keeps its parameter number argIdx: every store must be an assignment to a
+// (possibly nested) map element whose innermost key is a parameter of the function. Returns the number of keyed stores
+// and a reason when some store is not keyed.
+func keyedStoreOnly(f *core.Func, argIdx int) (int, string) {
+	info := f.Pkg.TypesInfo
+	var params []*types.Var
+	for _, fl := range f.Decl.Type.Params.List {
+		for _, nm := range fl.Names {
+			if v, ok := info.Defs[nm].(*types.Var); ok {
+				params = append(params, v)
+			}
+		}
+	}
+	if argIdx >= len(params) {
+		return 0, "parameter not identified"
+	}
+	tx := params[argIdx]
+	isParam := func(o types.Object) bool {
+		for _, q := range params {
+			if q == o && q != tx {
+				return true
+			}
+		}
+		return false
+	}
+	stores, why := 0, ""
+	ast.Inspect(f.Body, func(n ast.Node) bool {
+		switch s := n.(type) {
+		case *ast.AssignStmt:
+			for i, rhs := range s.Rhs {
+				if !core.Mentions(info, rhs, tx) {
+					continue
+				}
+				if c, ok := core.Unparen(rhs).(*ast.CallExpr); ok && core.BuiltinName(info, c) == "append" {
+					why = "the response is appended to a slice"
+					continue
+				}
+				if i >= len(s.Lhs) {
+					continue
+				}
+				ix, ok := core.Unparen(s.Lhs[i]).(*ast.IndexExpr)
+				if !ok {
+					if id, isId := core.Unparen(s.Lhs[i]).(*ast.Ident); isId && id.Name == "_" {
+						continue
+					}
+					if core.ObjOf(info, rhs) == tx {
+						why = "the response is stored in " + core.ExprStr(s.Lhs[i]) + ", not under a key"
+					}
+					continue
+				}
+				t := info.TypeOf(ix.X)
+				if t == nil {
+					continue
+				}
+				if _, isMap := t.Underlying().(*types.Map); !isMap || !isParam(core.ObjOf(info, ix.Index)) {
+					why = "the response is stored at " + core.ExprStr(s.Lhs[i]) + ", which is not a map element keyed by a parameter"
+					continue
+				}
+				stores++
+			}
+		case *ast.SendStmt:
+			if core.Mentions(info, s.Value, tx) {
+				why = "the response is sent on a channel"
+			}
+		}
+		return true
+	})
+	return stores, why
 }
